@@ -175,7 +175,7 @@ def new_vec(cx, name, conj=None):
     slot = mk_id(cx, f"{name}_slot")
     lay = Layer(name, ("site",), (slot,), cx.Bool(f"{name}_conj") if conj is None else conj, cx.Bool(f"{name}_present"))
     return cx.new_obj("TN", cls="vec", _site_ind_id=sid, layers=(lay,), cyclic=cx.Bool(f"{name}_cyclic"),
-                      L=cx.Int(f"{name}_L"))
+                      L=cx.Int(f"{name}_L"), _site_tag_id=mk_id(cx, f"{name}_tagid"))
 
 
 def new_op(cx, name, conj=None):
@@ -184,7 +184,7 @@ def new_op(cx, name, conj=None):
     lay = Layer(name, ("up", "lo"), (su, sl), cx.Bool(f"{name}_conj") if conj is None else conj,
                 cx.Bool(f"{name}_present"))
     return cx.new_obj("TN", cls="op", _upper_ind_id=up, _lower_ind_id=lo, layers=(lay,),
-                      cyclic=cx.Bool(f"{name}_cyclic"), L=cx.Int(f"{name}_L"))
+                      cyclic=cx.Bool(f"{name}_cyclic"), L=cx.Int(f"{name}_L"), _site_tag_id=mk_id(cx, f"{name}_tagid"))
 
 
 def is_tn(v):
@@ -1372,7 +1372,7 @@ class DMRGXInit(DMRGContract):
     var_ham2's UP leg, var_ham2's LO leg on k"""
 
     target = f"{DMRGF}::DMRGX.__init__"
-    floor = 15
+    floor = 8
 
     def mk_inputs(self, cx, case):
         return with_cx(cx, dict(self=cx.new_obj("DMRG"), ham=new_op(cx, "ham"), p0=new_vec(cx, "p0"),
